@@ -259,6 +259,36 @@ def rule45_alloc(ctx, fl, v):
     ctx.floor('C10.5', 8)
 
 
+def rule6_reuse(ctx, v):
+    ctx.doc('C10.6', 'a key index handed out again after a delete must not expose, in a thread that lived across the delete, the value '
+            'that thread stored under the deleted key ("a thread that never stored reads NULL"): myth_tls_tree_get validates the slot '
+            'against the current incarnation of the key (a field of the key table compared with a field of the slot) before returning it')
+    g = ctx.need_fn(v, 'myth_tls_tree_get')
+    vals = g.loads_of('myth_tls_entry.value')
+    ctx.ob('C10.6', 'get returns the slot value', len(vals) >= 1, 'n->entries[idx].value', loc=g.loc)
+    ok = False
+    for ic in g.order:
+        if ic.op != 'icmp':
+            continue
+        srcs = set()
+        for o in ic.ops:
+            for k in g.sources(o, through_arith=True):
+                i = g.insts.get(k)
+                if i is not None and i.op == 'load':
+                    fld = g.field(i)
+                    if fld.startswith('myth_tls_key_entry.'):
+                        srcs.add('key')
+                    elif fld.startswith('myth_tls_entry.') and fld != 'myth_tls_entry.value':
+                        srcs.add('slot')
+        if srcs == {'key', 'slot'}:
+            ok = True
+    ctx.ob('C10.6', 'myth_tls_tree_get: value of a recycled index is validated against the key incarnation', ok,
+           'nothing ties a stored value to the incarnation of the key it was stored under; key deletion does not visit the threads',
+           loc=vals[0].loc if vals else g.loc,
+           detail='the slot has the single member myth_tls_entry.value and the key table is not consulted by get/set')
+    ctx.floor('C10.6', 2)
+
+
 def run(ctx):
     for fl in flavours(ctx):
         ctx.unit = fl
@@ -269,6 +299,7 @@ def run(ctx):
         rule2_decomp(ctx, v)
         rule3_follows(ctx, fl)
         rule45_alloc(ctx, fl, v)
+        rule6_reuse(ctx, v)
 
 
 TLS = 'src/myth_tls_func.h'
